@@ -58,6 +58,19 @@ def plan(tier):
             continue
         for n in sorted({1, (L - 16) // 120}):
             cases.append({"spec": {**BASE, "leader": {"n_att": n, "att_len": L}}, "label": f"attitude points={n} record length {L}"})
+    # record START offsets around powers of two (windowed / head+tail readers): the first facility record is sized so that the
+    # second one - and, separately, the fifth - begins at B-14 .. B+2 for B = 2^15 .. 2^18
+    sp0 = treecheck.spec_from_case({"spec": {**BASE, "leader": {"fac_len": [66, 66, 66, 66]}}})
+    files0, _ = synth.build(sp0)
+    start1 = len(files0[synth.file_names(sp0)["led"]]) - 5000 - 4 * 66  # offset of facility record 1 in this layout
+    for B in (2**15, 2**16, 2**17, 2**18):
+        for d in range(-14, 3, 2) if tier == "quick" else range(-14, 3):
+            l1 = B + d - start1
+            if l1 >= 66:
+                cases.append({"spec": {**BASE, "leader": {"fac_len": [l1, 100, 101, 102]}}, "label": f"facility record 2 starts at {B}{d:+d}"})
+            l4 = B + d - start1 - 100 - 101 - 102
+            if l4 >= 66:
+                cases.append({"spec": {**BASE, "leader": {"fac_len": [100, 101, 102, l4]}}, "label": f"facility record 5 starts at {B}{d:+d}"})
     # leader / volume directory files with bytes behind their last record
     for which in ("led", "vol"):
         for pad in (1, 360, 512, 5000):
@@ -180,7 +193,7 @@ def run(res, tier, seed):
     res.rule = (
         "attitude points 1..136 and every count for record lengths 136/256/1000; channels 1..16 (2 levels); facility records 1-4"
         " each with every length 66..130 and 1000/5000/100000, alone and all equal, all equal for every length up to 2600 (quick) /" " 20000 (thorough) and 2^12..2^17 +-70; attitude record lengths 137..699 (quick) / ..2999 with 1 and the maximal number of points; map projection 0/1 x 3 levels;"
-        " file pointers 0..12; leader / volume files padded behind their last record; 13 framing cases again under python -O; 3 combined extremes; trailer with 0..7 low-resolution images in every rotation of 7 distinct sizes"
+        " facility records 2 and 5 starting at 2^15..2^18 -14..+2; file pointers 0..12; leader / volume files padded behind their last record; 13 framing cases again under python -O; 3 combined extremes; trailer with 0..7 low-resolution images in every rotation of 7 distinct sizes"
         " (1/2/4 bytes per sample). Every case is a structurally distinct file compared on the whole tree / every trailer image."
     )
     res.assumptions = ["the orientation of trailer image shapes is not pinned by the property (compared as a multiset)"]
